@@ -14,7 +14,14 @@ THEOREMS += ['FFVerif.C08.' + t for t in '''infidelity_energy_offset infidelity_
 infidelity_frame_independent' frame_identity_element infidelity_basis_independent
 infidelity_basis_change_traceless infidelity_basis_independent_traceless
 infidelity_branches_agree'''.split()]
-LEAN_MODULES = ['FFVerif.Props.C12', 'FFVerif.Props.C08Inv']
+# cumulant-function / error-transfer-matrix level (module Props/C12Etm, namespace FFVerif.C12)
+THEOREMS += '''toComplexMat_toMatrix fn_toComplexMat basis_transition_orthogonal basisTransition_reorder
+cm_basis_change_real decay_amplitudes_basis_change decay_amplitudes_basis_change_matrix
+cumulant_basis_change_of_mix cumulant_basis_change_of_mix_opt cumulant_basis_change
+cumulant_single_qubit_basis_change etm_basis_change etm_sum_basis_change
+process_fidelity_basis_independent cumulant_trace_basis_independent
+infidelity_eq_neg_trace_model_cumulant etm_basis_change_from_scratch'''.split()
+LEAN_MODULES = ['FFVerif.Props.C12', 'FFVerif.Props.C08Inv', 'FFVerif.Props.C12Etm']
 PINS = ['pinIdentityElementIndex', 'pinGgmExpand']
 GEN_SITES = c01.GEN_SITES
 COMPONENTS = c01.COMPONENTS
